@@ -11,10 +11,12 @@ import (
 	"bytes"
 	"encoding/json"
 	"fmt"
+	"strings"
 	"time"
 
 	"verif/engine"
 	"verif/harness/c03"
+	"verif/harness/c14"
 	"verif/harness/hk"
 	"verif/harness/udpx"
 	"verif/harness/world"
@@ -153,6 +155,20 @@ func scenario(name string, in input, sequential bool) *engine.Scenario {
 			}
 		}
 		fs = append(fs, ownership(tr)...)
+		if sequential {
+			// "while an association is alive" is read with the lifetime the server promises (C14's
+			// reference: the NAT timeout after a non-DNS datagram, 17 s after a DNS one, the single-query
+			// fast close): a client whose datagrams are spaced within that promise keeps its source. An
+			// association that is ended early and replaced makes the client's source change although,
+			// as far as the client can tell, its association is alive. Only that consequence is taken
+			// from the lifetime oracle (datagram steps), not the lifetime clauses themselves.
+			_, life := c14.Oracle(tr)
+			for _, f := range life {
+				if (f.Sig == "association-expired-early" || f.Sig == "source-changed-while-promised") && strings.Contains(f.Msg, `{"k":"S"`) {
+					fs = append(fs, &engine.Finding{Sig: "source-changed-within-promised-lifetime", Msg: "the client's next datagram cannot leave from the same source: " + f.Msg})
+				}
+			}
+		}
 		if in.NoExpiry {
 			fs = append(fs, stable(tr)...)
 		}
@@ -245,6 +261,35 @@ func init() {
 			in := input{Timeout: 10 * time.Second, Ops: ops}
 			ctx.RunCase("nat-seq", "Q", scenario("nat-seq", in, true), in, nil)
 		}
+		// one client, DNS and non-DNS destinations, DNS replies and 20 s pauses under a 300 s timeout:
+		// all sequences; whenever two datagrams are within the promised lifetime they share a source
+		dm := []udpx.Op{{K: "S", C: 0, Key: 0, T: 0, N: 20}, {K: "S", C: 0, Key: 0, T: 1, N: 20}, {K: "R", C: 0, T: 0, N: 16}, {K: "A", D: 20 * time.Second}}
+		dd := 6
+		if ctx.Tier == "thorough" {
+			dm = append(dm, udpx.Op{K: "R", C: 0, T: 1, N: 16}, udpx.Op{K: "S", C: 0, Key: 0, T: 6, N: 20})
+			dd = 7
+		}
+		dtotal := int64(1)
+		for i := 0; i < dd; i++ {
+			dtotal *= int64(len(dm))
+		}
+		for code := int64(0); code < dtotal; code++ {
+			if !ctx.Mine(code) {
+				continue
+			}
+			if ctx.Expired() {
+				ctx.Incomplete("nat-seq-dns", "nat-seq-dns: time cap hit at sequence %d of %d", code, dtotal)
+				break
+			}
+			ops := make([]udpx.Op, dd)
+			c := code
+			for i := 0; i < dd; i++ {
+				ops[i] = dm[c%int64(len(dm))]
+				c /= int64(len(dm))
+			}
+			in := input{Timeout: 300 * time.Second, Ops: ops}
+			ctx.RunCase("nat-seq-dns", "Q", scenario("nat-seq-dns", in, true), in, nil)
+		}
 		bound := 3
 		if ctx.Tier == "thorough" {
 			bound = 5
@@ -254,13 +299,13 @@ func init() {
 		}
 	})
 	hk.Replayers["C04"] = func(ctx *engine.Ctx, rp engine.Replay) []*engine.Finding {
-		if rp.Unit == "nat-seq" {
+		if rp.Unit == "nat-seq" || rp.Unit == "nat-seq-dns" {
 			var in input
 			if err := json.Unmarshal(rp.Input, &in); err != nil {
 				return []*engine.Finding{{Sig: "BROKEN:bad-input", Msg: err.Error()}}
 			}
 			rp.Choices = nil
-			return engine.ReplayCase("nat-seq", scenario("nat-seq", in, true), rp)
+			return engine.ReplayCase(rp.Unit, scenario(rp.Unit, in, true), rp)
 		}
 		var scs []*engine.Scenario
 		for i, in := range raceInputs() {
